@@ -161,6 +161,8 @@ func init() {
 			rules.I4(rc)
 			rules.I5(rc)
 			rules.I6(rc)
+			rules.I6c(rc)
+			rules.I6b(rc)
 		},
 	})
 	register(&Property{
